@@ -123,6 +123,14 @@ def interpolation(rep, an):
         rep.check("R-FLOW", "all interpolators evaluated on the same new domain", None if not calls else len(terms) == 1, where=res.fn.loc(),
                   construct="interpolator(new_domain)", entry=entry, config=res.config)
         R.rule_dtype_casts(rep, res, entry)
+        for tv in res.events("abs_tolerance"):
+            at = tv.d.get("atol")
+            if tv.d.get("dimensioned") and not (at is not None and at.known and at.const == 0):
+                rep.violated("R-TYPESTATE", "different domains are never declared equal", where=tv.loc, construct=tv.text(), entry=entry,
+                             config=res.config,
+                             msg="whether the input domains are 'the same' is decided with an absolute tolerance on domain coordinates: grids in "
+                                 "small units (metres) or with sub-tolerance offsets are declared identical and the arrays are returned "
+                                 "un-interpolated on the first domain")
         order_invariance(rep, res, entry)
         grid_construction(rep, res, entry)
 
